@@ -4,15 +4,20 @@
 # 1. demo alone (no patch): must pass   2. patch + demo: demo must fail   3. patch: crate's own tests (demo skipped) must pass
 set -u
 NAME="$1"; DIR="$2"; CRATE="$3"; FILTER="$4"
+# FILTER is either a test-name filter (demo inside the crate's unit tests) or "--test <file>" (integration test file).
+case "$FILTER" in
+  --test*) DEMO_ARGS="$FILTER"; REST_ARGS="--lib" ;;
+  *) DEMO_ARGS="--lib $FILTER"; REST_ARGS="--lib -- --skip $FILTER" ;;
+esac
 W=/tmp/seedrepo
 [ -d $W ] || git -C /repo worktree add -q $W HEAD
 cd $W && git checkout -q -- . && git clean -fdq -e target
 export CARGO_NET_OFFLINE=true
 res() { echo "[$NAME] $1"; }
 git apply "$DIR/demo.diff" || { res "demo.diff does not apply"; exit 1; }
-if cargo test --offline -p $CRATE $FILTER 2>&1 | grep -E "^test result" | grep -q "0 failed"; then res "demo without patch: PASS (expected)"; else res "demo without patch: FAIL (unexpected)"; fi
+if cargo test --offline -p $CRATE $DEMO_ARGS 2>&1 | grep -E "^test result" | grep -vq " 0 failed"; [ $? -ne 0 ]; then res "demo without patch: PASS (expected)"; else res "demo without patch: FAIL (unexpected)"; fi
 git apply "$DIR/patch.diff" || { res "patch.diff does not apply"; exit 1; }
-if cargo test --offline -p $CRATE $FILTER 2>&1 | grep -E "^test result" | grep -vq " 0 failed"; then res "demo with patch: FAIL (expected)"; else res "demo with patch: PASS (unexpected)"; fi
-OUT=$(cargo test --offline -p $CRATE -- --skip $FILTER 2>&1 | grep -E "^test result")
+if cargo test --offline -p $CRATE $DEMO_ARGS 2>&1 | grep -E "^test result" | grep -vq " 0 failed"; then res "demo with patch: FAIL (expected)"; else res "demo with patch: PASS (unexpected)"; fi
+OUT=$(cargo test --offline -p $CRATE $REST_ARGS 2>&1 | grep -E "^test result")
 if echo "$OUT" | grep -vq " 0 failed"; then res "existing tests with patch: FAIL (unexpected) $OUT"; else res "existing tests with patch: PASS (expected) $(echo "$OUT" | head -1)"; fi
 git checkout -q -- . && git clean -fdq -e target
